@@ -77,6 +77,12 @@ func drawChain(t *rapid.T) chain.Case {
 			continue
 		}
 		l := &cs.Links[pos-1]
+		if rapid.IntRange(0, 4).Draw(t, "farnbf") == 0 {
+			v := rapid.SampledFrom(farFuture).Draw(t, "farv")
+			l.NbfAbs, l.Nbf = &v, nil
+			cs.Dev = append(cs.Dev, "inactive-far@"+where)
+			continue
+		}
 		if rapid.Bool().Draw(t, "kind") {
 			v := -off
 			l.Exp = &v
@@ -101,7 +107,12 @@ type WinCase struct {
 	Decoded    bool   `json:"decoded"`
 	Nbf        *int64 `json:"nbf,omitempty"` // seconds from now (delegations only)
 	Exp        *int64 `json:"exp,omitempty"`
+	NbfAbs     *int64 `json:"nbf_abs,omitempty"` // absolute far-future bounds (delegations only)
+	ExpAbs     *int64 `json:"exp_abs,omitempty"`
 }
+
+// far-future instants: 2300, 2500, 3000, 9999 and the largest timestamp the wire format admits
+var farFuture = []int64{10413792000, 16725225600, 32503680000, 253402300799, (1 << 53) - 1}
 
 var winOffsets = []int64{3600, 86400, 365 * 86400, 100 * 365 * 86400, -3600, -86400, -365 * 86400, -100 * 365 * 86400}
 
@@ -122,7 +133,13 @@ func runWin(c *h.Ctx, w WinCase) {
 		}
 		tk, exp = tkn, tkn.Expiration()
 	} else {
-		l := chain.Link{Iss: 0, Aud: 1, Sub: 0, Cmd: "/foo", Nbf: w.Nbf, Exp: w.Exp, Decoded: w.Decoded}
+		l := chain.Link{Iss: 0, Aud: 1, Sub: 0, Cmd: "/foo", Nbf: w.Nbf, Exp: w.Exp, NbfAbs: w.NbfAbs, ExpAbs: w.ExpAbs, Decoded: w.Decoded}
+		if w.NbfAbs != nil {
+			l.Nbf = nil
+		}
+		if w.ExpAbs != nil {
+			l.Exp = nil
+		}
 		tkn, _, _, err := chain.BuildLink(l)
 		if err != nil {
 			c.P.Class("build-error")
@@ -131,10 +148,10 @@ func runWin(c *h.Ctx, w WinCase) {
 		tk, nbf, exp = tkn, tkn.NotBefore(), tkn.Expiration()
 	}
 	var _ token.Token = tk.(token.Token)
-	if (w.Exp != nil) != (exp != nil) {
+	if (w.Exp != nil || (w.ExpAbs != nil && !w.Invocation)) != (exp != nil) {
 		c.Fail("C04/window/bound-lost", "expiration requested=%v, reported=%v", w.Exp != nil, exp)
 	}
-	if !w.Invocation && (w.Nbf != nil) != (nbf != nil) {
+	if !w.Invocation && (w.Nbf != nil || w.NbfAbs != nil) != (nbf != nil) {
 		c.Fail("C04/window/bound-lost", "notBefore requested=%v, reported=%v", w.Nbf != nil, nbf)
 	}
 	if nbf != nil && exp != nil && nbf.After(*exp) {
@@ -150,7 +167,8 @@ func runWin(c *h.Ctx, w WinCase) {
 			probes = append(probes, bnd.Add(d), bnd.Add(-d))
 		}
 	}
-	probes = append(probes, time.Time{}, time.Date(1, 1, 1, 0, 0, 1, 0, time.UTC), time.Date(9999, 12, 31, 23, 59, 59, 0, time.UTC),
+	probes = append(probes, time.Date(1600, 1, 1, 0, 0, 0, 0, time.UTC), time.Date(2300, 1, 1, 0, 0, 0, 0, time.UTC), time.Date(3000, 1, 1, 0, 0, 0, 0, time.UTC),
+		time.Time{}, time.Date(1, 1, 1, 0, 0, 1, 0, time.UTC), time.Date(9999, 12, 31, 23, 59, 59, 0, time.UTC),
 		time.Unix(0, 0), time.Now())
 	for i, p := range probes {
 		inside := (nbf == nil || p.After(*nbf)) && (exp == nil || p.Before(*exp))
@@ -168,15 +186,15 @@ func runWin(c *h.Ctx, w WinCase) {
 		case !inside && !outside:
 			c.P.Unspecified()
 		}
-		if i < len(probes)-5 {
-			c.P.NonTrivial([]any{"win", w.Invocation, w.Decoded, w.Nbf, w.Exp, i}, map[string]any{"token": kind, "decoded": w.Decoded, "nbf_off": w.Nbf, "exp_off": w.Exp, "probe_index": i, "inside": inside, "outside": outside, "valid": got})
+		if i < len(probes)-8 {
+			c.P.NonTrivial([]any{"win", w.Invocation, w.Decoded, w.Nbf, w.Exp, w.NbfAbs, w.ExpAbs, i}, map[string]any{"token": kind, "decoded": w.Decoded, "nbf_off": w.Nbf, "exp_off": w.Exp, "probe_index": i, "inside": inside, "outside": outside, "valid": got})
 		}
 	}
 	// IsValidNow == IsValidAt(now): every bound is >= 1h away from now
 	if tk.IsValidNow() != tk.IsValidAt(time.Now()) {
 		c.Fail("C04/window/now", "IsValidNow() != IsValidAt(time.Now())")
 	}
-	c.P.Class(fmt.Sprintf("window/inv=%v/dec=%v/nbf=%v/exp=%v", w.Invocation, w.Decoded, w.Nbf != nil, w.Exp != nil))
+	c.P.Class(fmt.Sprintf("window/inv=%v/dec=%v/nbf=%v/exp=%v/far=%v", w.Invocation, w.Decoded, nbf != nil, exp != nil, w.NbfAbs != nil || w.ExpAbs != nil))
 }
 
 func drawWin(t *rapid.T) WinCase {
@@ -188,6 +206,14 @@ func drawWin(t *rapid.T) WinCase {
 	if !w.Invocation && rapid.IntRange(0, 3).Draw(t, "hasnbf") > 0 {
 		v := rapid.SampledFrom(winOffsets).Draw(t, "nbf")
 		w.Nbf = &v
+	}
+	if !w.Invocation && rapid.IntRange(0, 3).Draw(t, "far") == 0 {
+		v := rapid.SampledFrom(farFuture).Draw(t, "farv")
+		if rapid.Bool().Draw(t, "farnbf") {
+			w.NbfAbs = &v
+		} else {
+			w.ExpAbs = &v
+		}
 	}
 	return w
 }
@@ -211,6 +237,14 @@ func TestWindowExhaustive(t *testing.T) {
 					}
 					winProp.One(t, WinCase{Invocation: inv, Decoded: dec, Nbf: n, Exp: e})
 				}
+			}
+		}
+	}
+	for i := range farFuture {
+		for _, dec := range []bool{false, true} {
+			for _, o := range opts {
+				winProp.One(t, WinCase{Decoded: dec, NbfAbs: &farFuture[i], Exp: o})
+				winProp.One(t, WinCase{Decoded: dec, ExpAbs: &farFuture[i], Nbf: o})
 			}
 		}
 	}
